@@ -192,6 +192,7 @@ pub fn session<SA: StorageProvider, SB: StorageProvider>(
 
 #[derive(Default)]
 pub struct DirOut {
+    pub soft: Option<Failure>,
     pub sessions: u64,
     pub zero_progress: u64,
     pub multi_response: bool,
@@ -212,7 +213,9 @@ pub fn drain<SA: StorageProvider, SB: StorageProvider>(
     let (ca, cb) = caches;
     let b_ids: BTreeSet<Id> = b_set.iter().map(|i| w.cmds[*i].id).collect();
     let mut out = DirOut::default();
+    let mut last_was_zero = false;
     let missing0 = b_set.difference(a_set).count() as u64;
+    let common0 = b_set.intersection(a_set).count() as u64;
     let bound = missing0 + missing0 / 50 + 4;
     loop {
         let missing: BTreeSet<usize> = b_set.difference(a_set).copied().collect();
@@ -238,6 +241,47 @@ pub fn drain<SA: StorageProvider, SB: StorageProvider>(
             shorts(&now.difference(&want).copied().collect::<Vec<_>>())
         );
         let gained = new_set.len() - a_set.len();
+        if std::env::var_os("VH_SYNC_TRACE").is_some() && gained == 0 && out.zero_progress == 3 {
+            let mc = |i: &usize| w.cmds[*i].max_cut;
+            println!("DUMP missing max_cuts {:?}", missing.iter().map(mc).collect::<Vec<_>>());
+            println!("DUMP sent max_cuts {:?}", s.sent.iter().map(|x| x.1).collect::<Vec<_>>());
+            println!("DUMP a heads {:?}", a.heads().unwrap().iter().map(|h| (short(&h.0), h.1)).collect::<Vec<_>>());
+            println!("DUMP b heads {:?}", b.heads().unwrap().iter().map(|h| (short(&h.0), h.1)).collect::<Vec<_>>());
+            println!("DUMP cache_a_of_b {:?}", ca.heads().iter().map(|h| (short(h.id.as_array()), h.max_cut.get())).collect::<Vec<_>>());
+            println!("DUMP cache_b_of_a {:?}", cb.heads().iter().map(|h| (short(h.id.as_array()), h.max_cut.get())).collect::<Vec<_>>());
+            // parents of missing commands: which are held by A
+            let mut roots = Vec::new();
+            for m in &missing {
+                if w.cmds[*m].parents.iter().all(|p| a_set.contains(p)) {
+                    roots.push((short(&w.cmds[*m].id), w.cmds[*m].max_cut, w.cmds[*m].kind));
+                }
+            }
+            println!("DUMP missing roots (all parents at A) {:?}", roots);
+            let bw = b.walk().unwrap();
+            let mut segs: std::collections::BTreeMap<u64, Vec<(u64, bool)>> = Default::default();
+            for (id, wc) in &bw {
+                segs.entry(wc.loc.segment.get()).or_default().push((wc.max_cut, a_set.contains(&w.by_id[id])));
+            }
+            for (sidx, v) in &segs {
+                let mut v = v.clone();
+                v.sort();
+                let have = v.iter().filter(|x| x.1).count();
+                println!("DUMP bseg {} mc {}..{} len {} a_has {}", sidx, v[0].0, v[v.len() - 1].0, v.len(), have);
+            }
+        }
+        if std::env::var_os("VH_SYNC_TRACE").is_some() && out.sessions < 40 {
+            println!(
+                "trace: session {} missing {} sample {} responses {} sent {} gained {} cache_a_of_b {} cache_b_of_a {}",
+                out.sessions,
+                missing.len(),
+                s.sample_len,
+                s.responses,
+                s.sent.len(),
+                gained,
+                ca.heads().len(),
+                cb.heads().len()
+            );
+        }
         *a_set = new_set;
         check_state(a, w, a_set, &format!("after session {}", out.sessions))?;
         if missing.is_empty() {
@@ -247,8 +291,7 @@ pub fn drain<SA: StorageProvider, SB: StorageProvider>(
         }
         if gained == 0 {
             out.zero_progress += 1;
-            fail!(
-                "C16: a sync session delivered no missing command while commands were missing",
+            let detail = format!(
                 "session {}: missing {} commands, sample of {} addresses, {} responses, {} commands sent",
                 out.sessions,
                 missing.len(),
@@ -256,8 +299,38 @@ pub fn drain<SA: StorageProvider, SB: StorageProvider>(
                 s.responses,
                 s.sent.len()
             );
+            // A stall: nothing at all was sent, or two sessions in a row without progress.
+            ensure!(!s.sent.is_empty(), "C16: a sync session delivered nothing at all while commands were missing", "{detail}");
+            // Every such session re-sends >= 1 response (up to 100 commands) of the prefix both sides share
+            // and the requester then records it in its peer cache, so their number is bounded by the
+            // size of that shared prefix; beyond that the sync is stalled.
+            ensure!(
+                out.zero_progress <= common0 / 100 + 2 || (std::env::var_os("VH_SYNC_TRACE").is_some() && out.sessions < 40),
+                "C16: repeated sync sessions deliver no missing command (stalled)",
+                "{detail}; {} sessions without progress, {common0} shared commands",
+                out.zero_progress
+            );
+            last_was_zero = true;
+            // Listed finding: the responder located none of the requester's sampled commands and re-sent
+            // only commands the requester already holds; progress resumes through the peer cache. Soft: the
+            // rest of the case is still checked and any other violation is reported in preference.
+            if out.soft.is_none() {
+                out.soft = Some(Failure::new(
+                    "C16: a sync session re-sent only commands the requester already holds while commands were missing",
+                    detail,
+                ));
+            }
+        } else {
+            last_was_zero = false;
         }
-        ensure!(out.sessions <= bound, "C16: too many sessions needed", "{} sessions for {missing0} missing commands", out.sessions);
+        let _ = last_was_zero;
+        ensure!(
+            out.sessions <= bound + out.zero_progress,
+            "C16: too many sessions needed",
+            "{} sessions ({} without progress) for {missing0} missing commands",
+            out.sessions,
+            out.zero_progress
+        );
     }
     ensure!(b_set.is_subset(a_set), "C16: requester still lacks commands after an empty session", "");
     Ok(out)
@@ -288,6 +361,10 @@ fn check_pair<SA: StorageProvider, SB: StorageProvider>(
     let mut cab = PeerCache::new();
     let mut cba = PeerCache::new();
     let d = drain(a, b, w, &mut a_set, &b_set, (&mut cab, &mut cba), buf, 1)?;
+    let mut soft = d.soft.clone();
+    if d.zero_progress > 0 {
+        info.label("zero_progress_session");
+    }
     if d.sessions > 2 || d.multi_response {
         info.nontrivial();
     }
@@ -307,10 +384,12 @@ fn check_pair<SA: StorageProvider, SB: StorageProvider>(
             round += 1;
             let before_b = b_set.len();
             let a_snapshot = a_set.clone();
-            drain(b, a, w, &mut b_set, &a_snapshot, (&mut cba, &mut cab), buf, 1000 * round)?;
+            let d1 = drain(b, a, w, &mut b_set, &a_snapshot, (&mut cba, &mut cab), buf, 1000 * round)?;
+            soft = soft.or(d1.soft);
             let before_a = a_set.len();
             let b_snapshot = b_set.clone();
-            drain(a, b, w, &mut a_set, &b_snapshot, (&mut cab, &mut cba), buf, 1000 * round + 500)?;
+            let d2 = drain(a, b, w, &mut a_set, &b_snapshot, (&mut cab, &mut cba), buf, 1000 * round + 500)?;
+            soft = soft.or(d2.soft);
             if b_set.len() == before_b && a_set.len() == before_a {
                 break;
             }
@@ -322,7 +401,10 @@ fn check_pair<SA: StorageProvider, SB: StorageProvider>(
         ensure!(oa == ob, "C16: replicas did not converge after syncing both ways until quiet", "{oa:?} vs {ob:?}");
         info.label("bidirectional");
     }
-    Ok(())
+    match soft {
+        Some(f) => Err(f),
+        None => Ok(()),
+    }
 }
 
 fn check(c: &SyncCase, info: &mut CaseInfo) -> CheckResult {
@@ -335,7 +417,76 @@ fn check(c: &SyncCase, info: &mut CaseInfo) -> CheckResult {
     }
 }
 
+/// Development aid (VH_DDMIN=<file>): delta-debugs the recipe of a failing replay case while the same
+/// signature persists and writes `<file>.min.json`.
+pub fn ddmin(path: &str) {
+    let rf: vcommon::ReplayFile = serde_json::from_slice(&std::fs::read(path).unwrap()).unwrap();
+    let mut c: SyncCase = serde_json::from_value(rf.case.clone()).unwrap();
+    let sig = rf.signature.clone();
+    let fails = |c: &SyncCase| -> bool {
+        let mut info = CaseInfo::default();
+        match vcommon::catch(|| check(c, &mut info)) {
+            Ok(Err(f)) => f.signature == sig,
+            _ => false,
+        }
+    };
+    assert!(fails(&c), "case does not fail with {sig}");
+    let mut n = 2usize;
+    while c.recipe.len() >= 2 {
+        let len = c.recipe.len();
+        let chunk = len.div_ceil(n);
+        let mut reduced = false;
+        for i in 0..n {
+            let lo = i * chunk;
+            if lo >= len {
+                break;
+            }
+            let hi = (lo + chunk).min(len);
+            let mut t = c.clone();
+            t.recipe.drain(lo..hi);
+            if !t.recipe.is_empty() && fails(&t) {
+                c = t;
+                n = n.saturating_sub(1).max(2);
+                reduced = true;
+                println!("ddmin: {} steps", c.recipe.len());
+                break;
+            }
+        }
+        if !reduced {
+            if n >= len {
+                break;
+            }
+            n = (n * 2).min(len);
+        }
+    }
+    // simplify scripts
+    for f in [0, 1] {
+        let mut t = c.clone();
+        let sc = if f == 0 { &mut t.a_script } else { &mut t.b_script };
+        sc.dup_pct = 0;
+        sc.flush_pct = 0;
+        if fails(&t) {
+            c = t;
+        }
+    }
+    let mut t = c.clone();
+    t.buf_sel = 0;
+    if fails(&t) {
+        c = t;
+    }
+    let out = vcommon::ReplayFile {
+        case: serde_json::to_value(&c).unwrap(),
+        ..rf
+    };
+    std::fs::write(format!("{path}.min.json"), serde_json::to_vec_pretty(&out).unwrap()).unwrap();
+    println!("ddmin: done, {} steps", c.recipe.len());
+}
+
 pub fn run(ctx: &Ctx, which: &str) -> ! {
+    if let Ok(p) = std::env::var("VH_DDMIN") {
+        ddmin(&p);
+        std::process::exit(0);
+    }
     let mut rep = Report::new(ctx, "exploration");
     rep.assume("the driver mirrors a transport: one persistent PeerCache per direction, update_heads after each session, one transaction per session");
     rep.assume("liveness is decided as bounded progress: every session must deliver >= 1 missing command while any is missing, and the number of sessions is bounded by missing + missing/50 + 4");
